@@ -37,3 +37,30 @@ Example C11_pinned_refuted :
   observe (mrun m [MGrow [0]%N]) (ret_pinned SGetMeta m 1 3) = Fault /\
   observe (mrun m [MWrite 2 [9]%N; MGrow [0]%N; MClose]) (ret_current SGetMeta m 1 3) = Bytes [2; 3; 4]%N.
 Proof. repeat split. Qed.
+
+(* ---- the other direction: the caller's vector and metadata slices ---- *)
+(* what the collection keeps of a slice passed in is what the slice held when the call was made, whatever the
+   caller writes into its buffers afterwards *)
+Theorem C11_kept_stable : forall c i h, kobserve (crun c h) (keep_current c i) = nth i c [].
+Proof. exact kept_stable. Qed.
+Print Assumptions C11_kept_stable.
+
+(* in every interleaving of collection operations and caller writes, the caller's buffers are what the caller's own
+   writes made them and the mapping is what the collection's own operations made it *)
+Theorem C11_independent : forall h m c,
+  snd (joint_run (m, c) h) = crun c (flat_map (fun o => match o with inr co => [co] | inl _ => [] end) h)
+  /\ fst (joint_run (m, c) h) = mrun m (flat_map (fun o => match o with inl mo => [mo] | inr _ => [] end) h).
+Proof. exact joint_independent. Qed.
+Print Assumptions C11_independent.
+
+(* retaining the caller's slice instead is refuted by one later write of the caller *)
+Theorem C11_ref_refuted : forall c i, i < length c -> nth i c [] <> [] ->
+  exists o, kobserve (cstep c o) (keep_ref c i) <> kobserve c (keep_ref c i).
+Proof. exact ref_changed_by_caller. Qed.
+Print Assumptions C11_ref_refuted.
+
+Example C11_caller_example :
+  let c := [[1; 2; 3]; [7]]%N in
+  kobserve (crun c [CWrite 0 1 [9]%N]) (keep_current c 0) = [1; 2; 3]%N
+  /\ kobserve (crun c [CWrite 0 1 [9]%N]) (keep_ref c 0) = [1; 9; 3]%N.
+Proof. split; reflexivity. Qed.
